@@ -120,3 +120,11 @@ Theorem C12_components_value_is_protocol_response odd r0 rt phi0 rest theta : (0
   last (jac3R odd (map Q2R (r0 :: rt)) (cos theta)) 0%R = snd (m00 (Ux_at phi0 rest theta)).
 Proof. exact (jac3_value_is_protocol_response odd r0 rt phi0 rest theta). Qed.
 Print Assumptions C12_components_value_is_protocol_response.
+
+(* the whole matrix returned for the protocol: a symmetric SU(2) element [[x + i y, i z],[i z, x - i y]] with real x, y, z, for every
+   parity, length, reduced phases and angle — the relations the whole-matrix read-out of gen_unitary is checked against *)
+Theorem C12_unitary_is_symmetric_su2 odd r0 rt phi0 rest theta :
+  sym_full_q odd (r0 :: rt) = Some (phi0 :: rest) ->
+  exists x y z : R, Ux_at phi0 rest theta = symS (x, y, z).
+Proof. exact (sym_unitary_form odd r0 rt phi0 rest theta). Qed.
+Print Assumptions C12_unitary_is_symmetric_su2.
